@@ -19,7 +19,7 @@ from typing import Dict, List
 from core import Case
 
 PID = "C15"
-LEAN_MODULES = ["KrroodVerif.Props.C15", "KrroodVerif.Props.C15Rules"]
+LEAN_MODULES = ["KrroodVerif.Props.C15", "KrroodVerif.Props.C15Rules", "KrroodVerif.Props.C16HalfBuilt"]
 THEOREMS = [
     "KrroodVerif.PD.C15_sound",
     "KrroodVerif.PD.C15_closed",
@@ -42,6 +42,11 @@ THEOREMS = [
     "KrroodVerif.PD.C15_rules_order_independent",
     "KrroodVerif.PD.C15_rules_agree_with_model",
     "KrroodVerif.PD.C15_rules_cex_skip_inferred",
+    # instances under construction, F-C15-4 = F-C16-10 (Model/DescriptorHalfBuilt.lean, Props/C16HalfBuilt.lean)
+    "KrroodVerif.PD.C16_half_state",
+    "KrroodVerif.PD.C16_half_repaired",
+    "KrroodVerif.PD.C16_half_partial",
+    "KrroodVerif.PD.C16_half_cex",
 ]
 MODEL_FUNCTION = ("PD.addFact / PD.addCore / PD.uRule / PD.updateValue / PD.step / PD.runModel "
                   "(Model/Descriptor.lean); specification PD.closure = PD.Derivable (C15_spec_exec)")
@@ -364,8 +369,6 @@ def _ctor_history(rng, d: dict, tag: str, maxlen: int):
         vals = []
         for f in ctorf[c]:
             tgts = [t for tc in d["targets"][f] for t in by_cls.get(tc, []) if t in usable]
-            if f in d["ctor_unsafe"].get(c, []):
-                tgts = []    # value-equality class: see _pd.ctor_unsafe (observed AttributeError, not yet a finding)
             xs: List[int] = []
             if tgts and (give_all or rng.random() < 0.6):
                 k = d["kinds"][f]
@@ -377,7 +380,7 @@ def _ctor_history(rng, d: dict, tag: str, maxlen: int):
             # at least two fields in one call wherever the class has them
             for j, (f, xs) in enumerate(vals):
                 tgts = [t for tc in d["targets"][f] for t in by_cls.get(tc, []) if t in usable]
-                if not xs and tgts and f not in d["ctor_unsafe"].get(c, []):
+                if not xs and tgts:
                     vals[j] = (f, [rng.choice(tgts)])
         calls.append((o, vals))
         usable.add(o)
